@@ -160,6 +160,23 @@ func c09World(t *testing.T, r *simcore.Run) any {
 		}
 	}
 
+	// kernel timestamp trouble at the listeners (sampled runs): a missing or nanosecond-form
+	// receive timestamp, a missing or late transmit timestamp - each request is still
+	// answered exactly once
+	if mode == "sampled" && tp.Bool(1, 2, "tsfaults") {
+		srvPlan := w.net.Plan
+		srvPlan.RxStampMissing, srvPlan.RxStampNS = uint64(tp.Intn(300, "rxmiss")), uint64(tp.Intn(300, "rxns"))
+		if tp.Bool(1, 2, "txfaults") {
+			srvPlan.TxStampMissing, srvPlan.TxStampLate = uint64(tp.Intn(200, "txmiss")), uint64(tp.Intn(100, "txlate"))
+		}
+		w.net.PlanFor = func(d *simnet.Datagram, at *simnet.UDPConn) *simnet.FaultPlan {
+			if at != nil && at.Host() == w.srv {
+				return &srvPlan
+			}
+			return nil
+		}
+	}
+
 	// wire accounting: replies caused by each injected datagram
 	type acct struct {
 		c       *c09Case
